@@ -90,3 +90,9 @@ CHECKS["C10"] = (
     "inspect-driven accessor catalogue (memoised members unwrapped) + ~150 fixed-argument calls on locations, sequences, codons and all gene-layer classes on five parent kinds; 1284 (quick) histories with confirmed cache evictions; three defects repaired (F2, F3, sequence-type spelling)",
     "DESIGN.md 5/C10",
 )
+
+CHECKS["C13"] = (
+    "runtime monitoring: edit-script reference model (literal substitution with per-base coordinate map) compared with alternative sequences, lifted locations and spliced sequences after incorporate_variants on features / transcripts / CDS / genes / collections, on chromosome and chunk parents; duck-typed VCF records for the phase-set grouping",
+    "complete sweep of single variants and variant pairs over a small reference x every contain-or-avoid 1..2-block location x strands; random references with 1..4 variants; one recorded finding (K1), one repaired (minus-strand start frame after incorporation)",
+    "DESIGN.md 5/C13",
+)
